@@ -71,7 +71,9 @@ var goVers = []string{"1.18", "1.21", "1.22.0", "1.23", "1.24", "1.24.2"}
 var dirNames = []string{"a", "b", "c", "d", "api", "core", "v1", "x/model", "y/model", "list"}
 var typeNames = []string{"Alpha", "Beta", "Gamma", "Delta", "Item", "ItemList", "Node", "Opt", "T", "U", "V", "K", "lower", "Spec",
 	// pairs that differ only in case (the exported type and its unexported twin)
-	"opt", "item", "spec", "node", "alpha"}
+	"opt", "item", "spec", "node", "alpha",
+	// identifiers outside ASCII
+	"Ünï", "Δelta", "数据"}
 var docWords = []string{"is a thing.", "holds data", "does work; see below.", "represents state"}
 
 func drawTag(r *Rng, gen string, allowFalse bool) Tag {
@@ -377,6 +379,11 @@ func drawDecls(r *Rng, cfg SpecConfig, p *PkgSpec, pi int) {
 			rest[i], rest[j] = rest[j], rest[i]
 		}
 	}
+	// files as other editors and platforms write them
+	for _, f := range files {
+		f.BOM = r.P(0.06)
+		f.CRLF = r.P(0.08)
+	}
 	// positions redirected by //line directives: from there on the file reports the name and the lines of
 	// the source it was generated from (a name in the same directory)
 	for fi, f := range files {
@@ -439,6 +446,24 @@ func drawPre(r *Rng, cfg SpecConfig, m *ModuleSpec) {
 		}
 		if r.P(0.2) {
 			add(j(".hidden"), "dot file\n")
+		}
+		if r.P(0.3) {
+			// files of the directory that are NOT files of the package as loaded: tests, other platforms,
+			// other build tags, ignored tools. They count for the directory hash, their declarations do
+			// not exist for generators (ExcludedTypeNames)
+			g := Pick(r, cfg.GenNames)
+			switch r.Intn(5) {
+			case 0:
+				add(j("extra_test.go"), "package "+p.Name+"\n\n// FromTest is declared in a test file.\n// +gengo:"+g+"\ntype FromTest struct{}\n")
+			case 1:
+				add(j("ext_test.go"), "package "+p.Name+"_test\n\n// +gengo:"+g+"\ntype FromExtTest struct{}\n")
+			case 2:
+				add(j("impl_windows.go"), "package "+p.Name+"\n\n// +gengo:"+g+"\ntype OnlyWindows struct{}\n")
+			case 3:
+				add(j("tagged.go"), "//go:build verif_never\n\npackage "+p.Name+"\n\n// +gengo:"+g+"\ntype OnlyWithTag struct{}\n")
+			case 4:
+				add(j("tool.go"), "//go:build ignore\n\npackage main\n\n// +gengo:"+g+"\ntype OnlyIgnored struct{}\n\nfunc main() {}\n")
+			}
 		}
 		if r.P(0.35) {
 			// what developers, editors and merge tools leave next to sources: parked or backed-up Go files
@@ -503,3 +528,7 @@ func AddCgoFile(r *Rng, m *ModuleSpec) bool {
 	p.Files = append(p.Files, native)
 	return true
 }
+
+// ExcludedTypeNames: types declared only in files that build constraints, the _test suffix or the
+// platform suffix keep out of the package (see drawPre). No generator may ever be called for them.
+var ExcludedTypeNames = map[string]bool{"FromTest": true, "FromExtTest": true, "OnlyWindows": true, "OnlyWithTag": true, "OnlyIgnored": true}
